@@ -400,6 +400,11 @@ def onObs (m : Mon) (label : String) (ok : Bool) (membership : Bool) (prev : Opt
                   (if o.gameCount == p.gameCount then [] else ["C07.game-count-changed-without-an-open"])
         let shouldPause := o.blind.isBreaking || decide (aliveCount o < o.cfg.minPlayers)
         let stopped := m.closedSeen
+        -- C12: the level in force when the continue handler runs decides — a break pauses, a playable level does not
+        let v12 := if stopped then [] else
+          (if o.blind.isBreaking && label != "continue.paused" then ["C12.table-not-paused-although-the-level-is-a-break"] else []) ++
+          (if !o.blind.isBreaking && label == "continue.paused" && !(decide (aliveCount o < o.cfg.minPlayers))
+           then ["C12.table-paused-although-the-level-is-not-a-break"] else [])
         let v8 := if stopped then [] else
           (if (label == "continue.paused") == shouldPause then [] else ["C08.pause-decision-wrong"]) ++
           (if !shouldPause && label != "continue.setup" then ["C08.next-hand-not-set-up"] else []) ++
@@ -418,7 +423,7 @@ def onObs (m : Mon) (label : String) (ok : Bool) (membership : Bool) (prev : Opt
           | none => []
         let stay := (p.players.filter (fun q => q.participated && q.bankroll > 0)).map (·.id)
         ({ m with openObs := none, opts := none, result := [], stayIn := stay,
-                  fundedAtTick := funded o, expectOpen := label == "continue.setup" && funded o ≥ 2 }, v7 ++ v8 ++ v5)
+                  fundedAtTick := funded o, expectOpen := label == "continue.setup" && funded o ≥ 2 }, v7 ++ v8 ++ v12 ++ v5)
     else if label == "reserve" && ok then
       -- C05: the waiting flag of a freshly seated player
       match prev, o.sm with
